@@ -12,6 +12,11 @@ def run(ctx):
     ctx.model("c09_inv/GraphTheoryMC", "c09_inv/GraphTheory_mc.cfg", workers=4, heap="8g")
     # the generator itself against the exact oracle (all behaviours of <= 4 operations, graphs up to 7 vertices)
     ctx.model(MOD, "c11_planar/PlanarGen_mc.cfg", heap="12g", timeout=2400)
+    # the same invariants (the exact oracle up to 8 vertices, the tracked faces) on randomised behaviours of up to 8 operations: flips and
+    # triangulation + one edge on 6..8 vertices, which the exhaustive run (<= 4 operations) does not reach
+    chk = ctx.tlc(MOD, "c11_planar/PlanarGen_simchk.cfg", workers=1, heap="6g", timeout=2400,
+                  simulate="num=%d" % (1200 if big else 150), depth=12, extra=["-seed", str(ctx.seed)])
+    ctx.cov.setdefault("models", []).append(dict(module=MOD, cfg="c11_planar/PlanarGen_simchk.cfg", mode="simulate", wall_s=round(chk["wall"], 1)))
     gen = os.path.join(ctx.work, "gen.out")
     ctx.tlc(MOD, "c11_planar/PlanarGen_dump.cfg", workers=1, outfile=gen, heap="8g", timeout=2400)
     # long randomised behaviours (PlanarGen.Randomised: one random successor per class of operation), every state emitted:
